@@ -7,6 +7,7 @@ import AcryoVerif.Gen.Align
 import AcryoVerif.Model.Landscape
 import AcryoVerif.Model.Split
 import AcryoVerif.Model.Fsc
+import AcryoVerif.Model.Bin
 
 /-! Dispatch of hand-written model operations for the line-protocol driver. -/
 namespace Model
@@ -143,6 +144,13 @@ def opFscLabels (a : Array Rat) : String :=
           if onb then nb := nb + 1
     return s!"{nb} | " ++ " ".intercalate labs
 
+/-- `bin b n0 n1 n2 data...` → `shape | data`. -/
+def opBin (a : Array Rat) : String :=
+  let n0 := (i a 1).toNat; let n1 := (i a 2).toNat; let n2 := (i a 3).toNat
+  let img : Img := ⟨n0, n1, n2, a.extract 4 (4 + n0 * n1 * n2)⟩
+  let o := binImage img (i a 0)
+  s!"{o.n0} {o.n1} {o.n2} | " ++ " ".intercalate (o.data.toList.map Canon.canon)
+
 def dispatch (name : String) (a : Array Rat) : Option String :=
   match name with
   | "prepAffine" => some (flat (opPrepAffine a))
@@ -168,6 +176,7 @@ def dispatch (name : String) (a : Array Rat) : Option String :=
   | "score" => some (opScore a)
   | "split" => some (opSplit a)
   | "fscLabels" => some (opFscLabels a)
+  | "bin" => some (opBin a)
   | _ => none
 
 end Model
